@@ -249,13 +249,14 @@ PROPS['C20'] = dict(
     level_note='Eight fixes made while building this check (xsd:long bit size, unsignedLong formatting, ParseFloat leniency, INF/NaN spelling, unchecked binaries, g* lexical forms, date/time leniency and dropped fractions, duration grammar). One known finding: fractional duration components, pinned by the repository\'s own test.',
 )
 
-_CANON_RULE = ('datasets of the symmetric shapes the property names: cycles (2-7), two cycles, cliques (2-4), disjoint copies of a chain, stars, paths, grids, self-referencing quads, blank nodes as graph names, random quads over 1-5 shared blank nodes, literals of every escaping class; a third of them with one node marked to break the symmetry partly; '
+_CANON_RULE = ('datasets of the symmetric shapes the property names: cycles (2-7), two cycles, cliques (2-4), disjoint copies of a chain, stars, paths, grids, self-referencing quads, blank nodes as graph names, random quads over 1-5 shared blank nodes, an irregular sparse digraph over 5-9 blank nodes taken twice (all first-degree hashes tie; long branching N-degree paths), literals of every escaping class; a third of them with one node marked to break the symmetry partly; '
                'each canonicalized as generated and in four isomorphic copies (fresh blank nodes created in shuffled order, quads shuffled): byte-equal outputs; one non-isomorphic neighbour (a predicate changed): different output; '
                'on every run: lines sorted and unique, iterator lines = written document, issued identifiers one-to-one and exactly c14n0..c14n(k-1), every line equal to its original quad (by OriginalQuadIndex) serialised independently by the harness under GetBlankNodeIdentifier, output parses back to a dataset isomorphic to the input; '
-               'three quarters of the datasets with FNV-1a-64 substituted through SetHashFunc and compared byte for byte with the Gallina model of RDFC-1.0, one quarter with SHA-256')
+               'three quarters of the datasets with FNV-1a-64 substituted through SetHashFunc and compared byte for byte with the Gallina model of RDFC-1.0, one quarter with SHA-256; '
+               'beyond the work limits (c03-limits: two chains of 530-679 blank nodes which differ at the far end): the implementation and the model both end in the recursion-depth error; an answer would have to be the same for isomorphic copies')
 
 PROPS['C03'] = dict(
-    families=[dict(name='c03-canon', quick=1500, thorough=15000), dict(name='c04-vectors', quick=1, thorough=1)],
+    families=[dict(name='c03-canon', quick=1500, thorough=15000), dict(name='c04-vectors', quick=1, thorough=1), dict(name='c03-limits', quick=2, thorough=12)],
     slice=25,
     rule=_CANON_RULE + '; the 65 W3C rdf-canon vectors (SHA-256, SHA-384 for test075) byte-compared with the published results, the poison graphs must end in an error or a self-consistent answer',
     trusted_base=['model/Canon.v: RDFC-1.0 4.4-4.8 as coded in rdfcanon/*.go, parametric in the hash; Go map iteration replaced by first-occurrence order; Heap permutation order of github.com/cespare/permute transcribed',
